@@ -747,15 +747,7 @@ def _known_namespace_dir(case, verdict):
           verdict.get('kind') in ('unexpected-error', 'unreadable-file-wrong-exception'))
 
 
-def _known_module_for_package(case, verdict):
-  """Open finding: the package reader takes a plain module (c14pkg/c14mod.py) for a package."""
-  return (any(f['kind'] == 'mod' for f in case['files']) and
-          ('@next-to-module' in verdict.get('detail', '') or
-           verdict.get('kind') == 'unreadable-file-no-error'))
-
-
-KNOWN = {'namespace_dir_on_sys_path': _known_namespace_dir,
-         'module_taken_for_package': _known_module_for_package}
+KNOWN = {'namespace_dir_on_sys_path': _known_namespace_dir}
 
 
 # ----------------------------------------------------------------------------- reference side
